@@ -62,7 +62,7 @@ pub fn gen(rng: &mut Rng, size: usize) -> Value {
         }
         _ => {
             // canonical text of random values, sometimes damaged at the end
-            let n = 1 + rng.below(size.max(1) as u64);
+            let n = if rng.chance(1, 25) { 250 + rng.below(300) } else { 1 + rng.below(size.max(1) as u64) };
             let vals: Vec<i64> = (0..n).map(|_| rand_val(rng)).collect();
             let mut s = generate_own(&vals);
             match rng.below(6) {
